@@ -60,6 +60,11 @@ AllAttr(t) == Abs(<<DoS, Step("attribute", t)>>)
 PoolC11 == << All(T_name("p", <<"a">>)), All(T_name("q", <<"a">>)), All(T_name("", <<"a">>)), All(T_nsany("p")), All(T_nsany("q")),
               All(T_localany(<<"a">>)), All(T_name("q", <<"b">>)), AllAttr(T_name("p", <<"x">>)), AllAttr(T_name("", <<"x">>)), AllAttr(T_nsany("q")),
               All(T_name("d", <<"a">>)),                                              \* the document's own prefix is NOT bound in the query
+              \* name tests on the namespace axis go by the URI the query binds to the name (see NsNameTest): the document's own
+              \* prefix d selects nothing, p / q select the nodes for the URIs bound to them, xml nothing unless the query binds it
+              Abs(<<DoS, Step("namespace", T_name("", <<"d">>))>>), Abs(<<DoS, Step("namespace", T_name("", <<"p">>))>>), Abs(<<DoS, Step("namespace", T_name("", <<"q">>))>>),
+              Call(<<"c","o","u","n","t">>, <<Abs(<<DoS, Step("namespace", T_name("", <<"x","m","l">>))>>)>>),
+              Abs(<<DoS, StepP("child", T_any, <<Rel(<<Step("namespace", T_name("", <<"d">>))>>)>>)>>),
               All(T_name("descendant", <<"a">>)), All(T_name("descendant", <<"a","t","t","r","i","b","u","t","e">>)), All(T_name("text", <<"n","o","d","e">>)),
               All(T_name("self", <<"c","h","i","l","d">>)), All(T_nsany("descendant")), AllAttr(T_name("descendant", <<"s","e","l","f">>)),
               All(T_name("p", <<"s","e","l","f">>)), All(T_name("attribute", <<"a">>)),
@@ -87,8 +92,10 @@ PoolC11 == << All(T_name("p", <<"a">>)), All(T_name("q", <<"a">>)), All(T_name("
 RECURSIVE SwapE(_)
 SwapPre(pre) == IF pre = "p" THEN "q" ELSE IF pre = "q" THEN "p" ELSE pre
 SwapT(t) == IF t.k \in {"name", "nsany"} THEN [t EXCEPT !.pre = SwapPre(t.pre)] ELSE t
+\* (on the namespace axis the NAME is what the bindings are asked about)
+SwapNsT(t) == IF t.k = "name" /\ t.pre = "" /\ t.lo \in {<<"p">>, <<"q">>} THEN [t EXCEPT !.lo = <<SwapPre(t.lo[1])>>] ELSE SwapT(t)
 SwapSteps(ss) == [i \in 1..Len(ss) |-> IF "fn" \in DOMAIN ss[i] THEN [fn |-> SwapE(ss[i].fn)]
-                                       ELSE [ax |-> ss[i].ax, test |-> SwapT(ss[i].test), preds |-> [j \in 1..Len(ss[i].preds) |-> SwapE(ss[i].preds[j])]]]
+                                       ELSE [ax |-> ss[i].ax, test |-> IF ss[i].ax = "namespace" THEN SwapNsT(ss[i].test) ELSE SwapT(ss[i].test), preds |-> [j \in 1..Len(ss[i].preds) |-> SwapE(ss[i].preds[j])]]]
 SwapE(e) ==
   CASE e.op \in {"num", "lit"} -> e
     [] e.op = "var" -> [e EXCEPT !.pre = SwapPre(e.pre)]
